@@ -99,6 +99,16 @@ pub fn titles(r: &mut Rng) -> String {
     }
 }
 
+/// Language tags with a multi-byte character at every small byte offset (hostile).
+pub fn hostile_lang(r: &mut Rng) -> String {
+    let mut s: String = (0..r.below(5)).map(|_| (b'a' + r.below(26) as u8) as char).collect();
+    s.push(*r.pick(&['ç', 'é', '中', '日', '😀', '\u{0}', 'Z', '~']));
+    for _ in 0..r.below(4) {
+        s.push(*r.pick(&['a', 'z', '-', 'U', 'ß', '語']));
+    }
+    s
+}
+
 pub fn langs(r: &mut Rng) -> String {
     match r.below(6) {
         0 => "eng".into(),
@@ -225,6 +235,14 @@ pub fn gen_history(r: &mut Rng, o: &GenOpts) -> History {
 }
 
 pub fn gen_history_for(r: &mut Rng, o: &GenOpts, cfg: Cfg) -> History {
+    let style = random_adts_style(r);
+    set_adts_style(style);
+    let h = gen_history_inner(r, o, cfg);
+    set_adts_style(None);
+    h
+}
+
+fn gen_history_inner(r: &mut Rng, o: &GenOpts, cfg: Cfg) -> History {
     let reorder = r.chance(o.reorder_pct, 100);
     let nv = match r.below(12) {
         0 => 0,
